@@ -17,7 +17,8 @@
        vol6 = 6*volume*2^(3k)
      LATW <id> <n> <mesh>         -> LW <id> w...                 windings at all centres (diagnostics)
    program (prefix):  B x0 y0 z0 x1 y1 z1 | + e e | - e e | ^ e e | S0 e e | S1 e e
-                      | P0 ax off e | P1 ax off e | T ax sgn off e | BA n e.. | BI n e.. | BS n e..  *)
+                      | P0 ax off e | P1 ax off e | T ax sgn off e | BA n e.. | BI n e.. | BS n e..
+                      | H ax greater off   (half-space leaf, produced by the spec-side push-down of transforms)  *)
 open C02_model
 
 let rec pos_of_int n = if n = 1 then XH else if n land 1 = 0 then XO (pos_of_int (n lsr 1)) else XI (pos_of_int (n lsr 1))
@@ -78,6 +79,7 @@ let parse_prog (toks : string array) (start : int) : csg =
     match next () with
     | "B" -> let a = Array.init 6 (fun _ -> nexti ()) in
       LBox (((dbl a.(0), dbl a.(1)), dbl a.(2)), ((dbl a.(3), dbl a.(4)), dbl a.(5)))
+    | "H" -> let ax = nexti () in let g = nexti () in let off = nexti () in LHalf (nat_of_int ax, g <> 0, dbl off)
     | "+" -> let a = e () in let b = e () in Node (Add, a, b)
     | "-" -> let a = e () in let b = e () in Node (Subtract, a, b)
     | "^" -> let a = e () in let b = e () in Node (Intersect, a, b)
@@ -142,6 +144,17 @@ let () =
             let k = max 1 (- (min_exp m.co)) in
             let h = z_shl (z_of_int 1) (k - 1) in
             let ((bad, cnt), vol) = lattice_check e (tris_of m k) (nat_of_int n) h in
+            Printf.printf "L %s %d %d %d %s %d\n" id k (int_of_z bad) (int_of_z cnt) (hex_of_z vol) (if csg_wf e then 1 else 0)
+          | "LATS" ->   (* LATS <id> <n> <shift> <mesh> <program>: the mesh is translated by (shift,shift,shift) first *)
+            let id = toks.(1) and n = int_of_string toks.(2) and sh = int_of_string toks.(3) in
+            let m = Hashtbl.find meshes toks.(4) in
+            let e = parse_prog toks 5 in
+            let k = max 1 (- (min_exp m.co)) in
+            let h = z_shl (z_of_int 1) (k - 1) in
+            let off = z_shl (z_of_int sh) k in
+            let sp ((x, y), z) = ((Z.add x off, Z.add y off), Z.add z off) in
+            let tl = List.map (fun ((a, b), c) -> ((sp a, sp b), sp c)) (tris_of m k) in
+            let ((bad, cnt), vol) = lattice_check e tl (nat_of_int n) h in
             Printf.printf "L %s %d %d %d %s %d\n" id k (int_of_z bad) (int_of_z cnt) (hex_of_z vol) (if csg_wf e then 1 else 0)
           | "LATW" ->
             let id = toks.(1) and n = int_of_string toks.(2) in
